@@ -211,8 +211,8 @@ Qed.
 
 (* ---- finding 3: intermediate name collision (corpus/C03/builds.json[2], the layering) ---- *)
 Definition w3_layer : layer :=
-  Layer "" "dev-" "" [
-    ISub (Layer "" "" "-s" [
+  Layer "" "dev-" "" [] [
+    ISub (Layer "" "" "-s" [] [
       IRes (fresh (doc "v1" "ServiceAccount" "a" []));
       IRes (fresh (doc "v1" "ServiceAccount" "a-s" []))]);
     IRes (fresh (doc "v1" "Pod" "pod" [("spec", Map [("serviceAccountName", sc "a-s")])]))].
@@ -823,7 +823,7 @@ Qed.
 
 (* non-vacuity of the build-level theorem: one kustomization, namePrefix p-, a ConfigMap and a Pod mounting it *)
 Definition ex_layer : layer :=
-  Layer "" "p-" "" [IRes (fresh (doc "v1" "ConfigMap" "cm" []));
+  Layer "" "p-" "" [] [IRes (fresh (doc "v1" "ConfigMap" "cm" []));
                     IRes (fresh (doc "v1" "Pod" "pod" [("spec", Map [("volumes", Seq [Map [("configMap", Map [("name", sc "cm")])]])])]))].
 Definition ex_hs : list string := [""; ""].
 Definition ex_m : list resource := unres (gen_build_names no_cs no_nonstr ex_layer ex_hs).
@@ -923,3 +923,23 @@ Proof.
   split; [vm_compute; reflexivity|]. split; [vm_compute; reflexivity|]. split; [vm_compute; reflexivity|].
   split; vm_compute; reflexivity.
 Qed.
+
+(* ---------- PatchTransformer's bookkeeping (layer field [touches], step STouch) ---------- *)
+(* an overlay patches the ConfigMap its base has renamed: the current id is recorded once more, then the
+   overlay's own prefix is applied; the history reads cm, p-cm, p-cm and the name is q-p-cm *)
+Definition touch_layer : layer :=
+  Layer "" "q-" "" [[true; false]]
+    [ISub (Layer "" "p-" "" [] [IRes (fresh (doc "v1" "ConfigMap" "cm" []));
+                                 IRes (fresh (doc "v1" "Secret" "s" []))])].
+
+Example touch_recorded :
+  map (fun r => (get_name (r_node r), r_pnames r))
+    (unres (build_names (fun _ _ => false) (fun _ => false)
+              gen_name_prefix_fs gen_name_suffix_fs gen_namespace_fs gen_prefix_skip gen_suffix_skip touch_layer [""; ""]))
+  = [("q-p-cm", Some "cm,p-cm,p-cm"); ("q-p-s", Some "s,p-s")].
+Proof. vm_compute. reflexivity. Qed.
+
+Example touch_prov_example :
+  map snd (build_prov touch_layer [""; ""]) =
+  [[SPrefix "p-"; STouch; SPrefix "q-"; SHash ""]; [SPrefix "p-"; SPrefix "q-"; SHash ""]].
+Proof. reflexivity. Qed.
